@@ -8,7 +8,7 @@ print(f"""You are working on a scratch git worktree of the Go library hashicorp/
 
 Environment (the sandbox has NO network; run this at the start of every shell command because the environment does not persist):
   export GOFLAGS=-mod=mod GOPROXY=off GOSUMDB=off GOTOOLCHAIN=local PATH=/opt/veriftools/go1.26.8/bin:$PATH
-The existing test suite is run with:  cd {wt} && go test -vet=off -count=1 -timeout 25m ./...   (about 45-60 seconds; a few tests bind loopback ports and are timing sensitive, so if a test unrelated to your change fails once, re-run it to confirm).
+The existing test suite is run with:  cd {wt} && go test -vet=off -count=1 -timeout 25m ./...   (about 45-60 seconds; a few tests bind loopback ports and are timing sensitive and the machine is shared, so if a test unrelated to your change fails, re-run just that test with -run a few times to confirm it is flaky).
 
 Here is a semantic property that the library is supposed to satisfy (this JSON record is all you are given about it):
 
@@ -21,7 +21,7 @@ For EACH seed you must also write a demonstration: a Go test file (package membe
 Procedure for each seed:
  1. Read the relevant code in {wt} and design the change.
  2. Apply it in {wt}; confirm `go build ./... && go vet ./... ` is fine and the FULL existing test suite passes (command above).
- 3. Write the demonstration test in {wt}/seed_demo_test.go; confirm it FAILS with the change (`go test -vet=off -count=1 -run TestSeedDemo ./`), then `git stash` / revert the source change (keep the demo file), confirm the demo PASSES on the pristine source, then restore.
+ 3. Write the demonstration test in {wt}/seed_demo_test.go; confirm it FAILS with the change (`go test -vet=off -count=1 -run TestSeedDemo ./`), then save your change with `git diff > /tmp/<yourseed>.diff` and revert it with `git checkout -- .` (keep the demo file; do NOT use `git stash` - the stash is shared between all worktrees of this repository and other agents are working in sibling worktrees), confirm the demo PASSES on the pristine source, then restore with `git apply`.
  4. Save the artefacts in a directory OUTSIDE the source files being tested: {wt}/_seeds/A/ and {wt}/_seeds/B/ each containing:
       patch.diff   - `git diff` of the non-test source change only (must apply with `git apply` to a pristine tree)
       demo_test.go - the demonstration test file (copy of seed_demo_test.go for that seed)
